@@ -4,9 +4,10 @@ Specification (specs/): Lexer.tla (layer A: sources as sequences of segments, Fl
 PartitionOK, a transcription of Django's Lexer = StockTokens, theorems Partition / StockEqual /
 OnlyQuotedClosersDiffer / SingleLineSame), LexerHandover.tla (layer B: the index_start /
 lineno_offset loop of parse_template with four NAMED deviations), LexerAtoms.tla (25 concrete
-segments), MC_C09.tla, MC_C09H.tla, Trace_C09.tla.
+segments + 10 near misses of the verbatim state machine), MC_C09.tla, MC_C09H.tla, Trace_C09.tla.
 
-spec -> code: TLC enumerates every source of <= N atoms (quick N=3: 10 526 sources), checks the
+spec -> code: TLC enumerates every source of <= N atoms (quick: N=3 over the 25 base atoms, N=3 over
+              the near-miss atoms + three followers, N=2 over all 35 atoms), checks the
               theorems and that the deviation-free hand-over loop refines Tokens, and exports each
               source with the token stream the specification expects.  Every exported source is run
               through django_components.util.template_parser.parse_template, through the patched
@@ -23,6 +24,18 @@ code -> spec: a seeded generator builds much deeper sources from the segment gra
               batch: ACCEPT (explained by Tokens), DEV D (explained only with the named deviations D
               of layer B, smallest D first -> KNOWN-FINDING per deviation) or REJECT (-> VIOLATION).
               Every mismatch of the spec -> code direction is classified by the same batch.
+
+Verbatim near misses (atoms 26..35, Gen.nearmiss / Gen.near_closer): block tags whose name has
+`verbatim` / `endverbatim` as a proper prefix or suffix (verbatim_js, verbatimx, xverbatim,
+endverbatimx ...), `verbatim` followed by tab / newline / CR / a quote instead of a space, an
+`endverbatim ...` where no block is open, and - inside a verbatim block - end tags that are not
+exactly "end" + the contents of the opening tag (other name, other arguments, other whitespace
+between name and arguments); each with and without quoted arguments, followed by further tags.
+Whether such a tag opens / closes a block is decided by the specification alone (OpensVerbatim,
+SegOK, BodySegOK of Lexer.tla = stock Django's contents[:9] in ("verbatim", "verbatim ") and
+contents == "end" + opening contents; the property makes stock Django the reference for everything but a quoted
+"%}"): the generator only proposes the segment structure and TLC rejects an ill-formed proposal as
+MACHINERY.
 
 Oracle zones (no single answer is determined; TemplateSyntaxError or any faithful partition is
 accepted): a block tag with an unbalanced quote; an unterminated tag containing a quoted "%}";
@@ -70,7 +83,7 @@ class Env:
 
         def noop(parser, token):
             return TextNode("")
-        for name in ("c", "x", "k", "y"):
+        for name in ["c", "x", "k", "y"] + Gen.NM_NAMES:
             lib.tag(name, noop)
         self.engines = {}
         for dbg in (False, True):
@@ -364,15 +377,34 @@ def apply_verdicts(chk: Check, cases: List[Dict[str, Any]], obss: List[Dict[str,
 
 
 # ---------------------------------------------------------------- spec -> code
-NATOMS = 25
+NATOMS = 35
+BASE = list(range(1, 26))            # the 25 base atoms
+NEAR = list(range(26, NATOMS + 1))   # near misses of the verbatim state machine
+ALL = BASE + NEAR
 
 
-def export_cases(chk: Check, maxsegs: int, workers: int, atoms: Optional[List[int]] = None) -> List[Dict[str, Any]]:
+def _set(xs) -> str:
+    return "{" + ",".join(str(a) for a in xs) + "}"
+
+
+def _bounds(ex) -> Dict[str, Any]:
+    """(MaxSegs, atoms or None = all[, FocusSegs, focus atoms[, pair atoms]]) -> the constants of MC_C09 / MC_C09H."""
+    n, atoms, fn, fatoms, pairs = (tuple(ex) + (0, [], [])[len(ex) - 2:])[:5]
+    return {"n": n, "atoms": list(atoms or ALL), "fn": fn, "fatoms": list(fatoms or []), "pairs": list(pairs or [])}
+
+
+def _bounds_cfg(b: Dict[str, Any]) -> str:
+    return (f"  MaxSegs = {b['n']}\n  AtomSet = {_set(b['atoms'])}\n  FocusSegs = {b['fn']}\n"
+            f"  FocusSet = {_set(b['fatoms'])}\n  PairSet = {_set(b['pairs'])}\n")
+
+
+def export_cases(chk: Check, ex, workers: int) -> List[Dict[str, Any]]:
     w = workdir("c09mc")
     out = w / "cases.ndjson"
     cfg = w / "mc.cfg"
-    aset = "{" + ",".join(str(a) for a in (atoms or range(1, NATOMS + 1))) + "}"
-    cfg.write_text(f"SPECIFICATION MCSpec\nCONSTANTS\n  MaxSegs = {maxsegs}\n  AtomSet = {aset}\n"
+    b = _bounds(ex)
+    maxsegs = f"{b['n']}/{b['fn']}/2"
+    cfg.write_text("SPECIFICATION MCSpec\nCONSTANTS\n" + _bounds_cfg(b) +
                    "INVARIANT GeneratorWellFormed\nINVARIANT Partition\nINVARIANT StockEqual\n"
                    "INVARIANT OnlyQuotedClosersDiffer\nINVARIANT SingleLineSame\nINVARIANT HandoverRefines\n"
                    "INVARIANT HandoverOffset\nINVARIANT Export\n")
@@ -459,24 +491,22 @@ def replay_rows(chk: Check, rows: List[Dict[str, Any]], template_every: int = 1)
         chk.add("replay_verdict_" + k, n)
 
 
-def handover_tlc(maxsegs: int) -> Dict[str, Any]:
+def handover_tlc(ex) -> Dict[str, Any]:
     """MC_C09H (TLC only; may run in a thread): the invariants of the loop hold without deviation;
     each deviation switched on alone must yield a counterexample."""
     w = workdir("c09h")
 
-    def cfg(name: str, n: int, devs: str, atoms: str, invs: List[str]) -> Path:
+    def cfg(name: str, bounds, devs: str, invs: List[str]) -> Path:
         p = w / name
-        p.write_text(f"SPECIFICATION HSpec\nCONSTANTS\n  MaxSegs = {n}\n  AtomSet = {atoms}\n  Devs = {devs}\n  ML = TRUE\n"
+        p.write_text("SPECIFICATION HSpec\nCONSTANTS\n" + _bounds_cfg(_bounds(bounds)) + f"  Devs = {devs}\n  ML = TRUE\n"
                      + "".join(f"INVARIANT {i}\n" for i in invs))
         return p
-    allatoms = "{" + ",".join(str(a) for a in range(1, NATOMS + 1)) + "}"
-    r = tlc.require_ok(tlc.run("MC_C09H", str(cfg("h.cfg", maxsegs, "{}", allatoms,
-                                                  ["OffsetInv", "ResumeInv", "Refines", "PrefixInv"])),
+    r = tlc.require_ok(tlc.run("MC_C09H", str(cfg("h.cfg", ex, "{}", ["OffsetInv", "ResumeInv", "Refines", "PrefixInv"])),
                                env=_java_env(w), workers=2), "MC_C09H without deviations")
     res: Dict[str, Any] = {"states": r.distinct, "transitions": r.generated, "cex": {}}
     for d in DEVS:
         # observable invariants only, so that the counterexample shows in the token stream
-        r = tlc.run("MC_C09H", str(cfg(f"h_{d}.cfg", 3, '{"%s"}' % d, "{2,4,10,12,14,15,19}", ["Refines", "PrefixInv"])),
+        r = tlc.run("MC_C09H", str(cfg(f"h_{d}.cfg", (3, [2, 4, 10, 12, 14, 15, 19]), '{"%s"}' % d, ["Refines", "PrefixInv"])),
                     env=_java_env(w), workers=1)
         if not r.violated:
             raise MachineryError(f"MC_C09H with deviation {d}: TLC found no counterexample\n" + r.out[-1500:])
@@ -537,6 +567,10 @@ class Gen:
     WS1 = [" ", " ", "\n", "  ", "\n  ", " \n ", "\t", "\r\n  "]
     PLAIN_BLOCK = ["c", "x", "k=v", "a.b", "w=5%x", "%", "50%", "x|f:y", "#", "5%", "k=", "/"]
     NAMES = ["c", "x", "k", "y"]
+    # tag names that are near misses of "verbatim" / "endverbatim" (none of them opens a block: Lexer!OpensVerbatim)
+    NM_NAMES = ["verbatimx", "verbatim_js", "verbatimize", "verbatim-block", "verbatims", "xverbatim", "_verbatim",
+                "Verbatim", "verbati", "endverbatim", "endverbatimx", "endverbatim_js", "xendverbatim"]
+    NM_SEP = ["\t", "\n", "\t ", "\n  ", "\r\n", "\n "]      # after the name "verbatim": anything but a space first
     STR_BITS = ["s", "a b", "%}", "}}", "{{ v }}", "{% x %}", "\n", "\\\n", "x\\\n y", '\\"', "\\'", "\\\\", "#}", "%", "{", " ", "{#", "\\n",
                 "\u00e9", "\r\n"]
 
@@ -606,14 +640,53 @@ class Gen:
     def block(self, quoted: float, closer: bool = True) -> Dict[str, Any]:
         return self.tag(PC, quoted, first=self.r.choice(self.NAMES), closer=closer)
 
+    def nearmiss(self, quoted: float, closer: bool = True) -> Dict[str, Any]:
+        """A block tag that is NOT a verbatim tag but nearly one: a name with verbatim / endverbatim as proper
+        prefix or suffix; the exact end tag (only ever generated where no block of that name is open); the
+        name `verbatim` followed by tab / newline / CR or directly by a quote instead of a space."""
+        x = self.r.random()
+        if x < 0.6:
+            return self.tag(PC, quoted, first=self.r.choice(self.NM_NAMES), closer=closer)
+        rest = self.parts(PC, quoted, closer=closer)
+        if x < 0.85:
+            head = [{"p": "plain", "c": _o("verbatim")}, {"p": "ws", "c": _o(self.r.choice(self.NM_SEP))}]
+        else:
+            head = [{"p": "plain", "c": _o("verbatim")}, self.strpart(PC, closer=closer)]
+            if rest and rest[0]["p"] == "plain":
+                head.append({"p": "ws", "c": self.ws(False)})
+        return {"k": "tag", "o": PC, "lw": self.ws(), "parts": head + rest, "rw": self.ws()}
+
+    def near_closer(self, extra: List[Dict[str, Any]]) -> Dict[str, Any]:
+        """Inside a verbatim block opened with `verbatim` + extra: an end tag that differs from the closing tag in
+        the name, in the arguments or in the whitespace between them (extra is empty or [ws, argument])."""
+        end = {"p": "plain", "c": _o("endverbatim")}
+        opts = ["name", "more", "other"]
+        if extra:
+            opts += ["bare", "ws"]
+        how = self.r.choice(opts)
+        if how == "name":
+            parts = [{"p": "plain", "c": _o(self.r.choice(["endverbatimx", "endverbatim_js", "xendverbatim", "endverbati"]))}] + extra
+        elif how == "more":
+            parts = [end] + extra + [{"p": "ws", "c": [SP]}, {"p": "plain", "c": _o("z")}]
+        elif how == "other":
+            parts = [end, {"p": "ws", "c": [SP]}, {"p": "str", "q": self.r.choice([DQ, SQ]), "c": _o("qq")}]
+        elif how == "bare":
+            parts = [end]
+        else:
+            other = [w for w in ([SP], [SP, SP], [TAB], [SP, TAB], [NL]) if w != extra[0]["c"]]
+            parts = [end, {"p": "ws", "c": self.r.choice(other)}] + extra[1:]
+        return {"k": "tag", "o": PC, "lw": self.ws(), "parts": json.loads(json.dumps(parts)), "rw": self.ws()}
+
     def verbatim(self, closed: bool = True) -> Dict[str, Any]:
         kind = self.r.choice(["", "", "n", "q", "q"])
         name: List[Dict[str, Any]] = [{"p": "plain", "c": _o("verbatim")}]
         endname: List[Dict[str, Any]] = [{"p": "plain", "c": _o("endverbatim")}]
+        # between name and argument: a space first (else the tag does not open a block), then anything
+        sep = _o(self.r.choice([" ", " ", " ", "  ", " \t", " \n", " \n  "]))
         if kind == "n":
-            extra = [{"p": "ws", "c": [SP]}, {"p": "plain", "c": _o("blk")}]
+            extra = [{"p": "ws", "c": sep}, {"p": "plain", "c": _o("blk")}]
         elif kind == "q":
-            extra = [{"p": "ws", "c": [SP]}, {"p": "str", "q": self.r.choice([DQ, SQ]), "c": _o("q")}]
+            extra = [{"p": "ws", "c": sep}, {"p": "str", "q": self.r.choice([DQ, SQ]), "c": _o("q")}]
         else:
             extra = []
         opn = {"k": "tag", "o": PC, "lw": self.ws(), "parts": name + extra, "rw": self.ws()}
@@ -629,6 +702,13 @@ class Gen:
                 body.append(self.tag(HS, 0.1))
             elif x < 0.7 and kind:
                 body.append({"k": "tag", "o": PC, "lw": [SP], "parts": endname, "rw": [SP]})   # other block's end tag
+            elif x < 0.8:
+                body.append(self.near_closer(extra))
+            elif x < 0.85:
+                t = self.nearmiss(0.5, closer=False)
+                if not kind and [p_["c"] for p_ in t["parts"]] == [_o("endverbatim")]:
+                    t["parts"][0]["c"] = _o("endverbatimx")      # the bare end tag would close this block
+                body.append(t)
             else:
                 body.append(self.block(0.4, closer=False))
         body = self._fix_text_ends(body)
@@ -685,6 +765,8 @@ class Gen:
                 segs.append(self.verbatim())
             elif x < 0.52 + zone:
                 segs.append(self.zone_block())
+            elif x < 0.62:
+                segs.append(self.nearmiss(0.6))
             else:
                 segs.append(self.block(quoted))
         if self.r.random() < 0.2:
@@ -776,11 +858,15 @@ def deep_traces(chk: Check, ntraces: int, nmin: int, nmax: int) -> None:
 # ---------------------------------------------------------------- entry points
 A14 = [2, 4, 5, 9, 10, 11, 12, 13, 14, 15, 17, 19, 22, 24]
 A8 = [2, 4, 10, 12, 14, 15, 19, 20]
+F3Q = NEAR + [2, 4, 10]                              # near misses + text with a newline, {{ v }}, a quoted block tag
+F3T = NEAR + [2, 4, 6, 8, 10, 12, 17, 19, 20, 24]
+F4T = [4, 10, 19, 26, 28, 32, 33]
 
 
-def core(chk: Check, exports: List[Tuple[int, Optional[List[int]]]], ntraces: int, nmin: int, nmax: int,
-         workers: int = 4, template_every: int = 1, machine: int = 2) -> None:
-    """exports: (MaxSegs, atom subset or None = all 25) per exhaustive TLC enumeration."""
+def core(chk: Check, exports: List[tuple], ntraces: int, nmin: int, nmax: int,
+         workers: int = 4, template_every: int = 1, machine: Any = (2, None)) -> None:
+    """exports: (MaxSegs, atom subset or None = all 35[, FocusSegs, focus atoms[, pair atoms]]) per exhaustive
+    TLC enumeration (see _bounds); machine: the same for MC_C09H, or 0 = skip."""
     import time
     env().hangs = 0
     ph = chk.cov.setdefault("phase_s", {})
@@ -792,15 +878,19 @@ def core(chk: Check, exports: List[Tuple[int, Optional[List[int]]]], ntraces: in
     seen: set = set()
     allrows: List[Dict[str, Any]] = []
     bounds = []
-    for maxsegs, atoms in exports:
+    for ex in exports:
         t = time.time()
-        rows = export_cases(chk, maxsegs, workers, atoms)
+        rows = export_cases(chk, ex, workers)
         ph["tlc_enumerate_theorems_export"] = round(ph.get("tlc_enumerate_theorems_export", 0) + time.time() - t, 1)
         t = time.time()
         fresh = [r for r in rows if tuple(r["ids"]) not in seen]
         seen.update(tuple(r["ids"]) for r in fresh)
         allrows += fresh
-        bounds.append({"max_segments": maxsegs, "atoms": atoms or "all 25", "sources": len(rows), "new": len(fresh)})
+        b = _bounds(ex)
+        bounds.append({"max_segments": b["n"], "atoms": "all 35" if b["atoms"] == ALL else b["atoms"],
+                       "focus_max_segments": b["fn"], "focus_atoms": b["fatoms"],
+                       "pair_atoms": "all 35" if b["pairs"] == ALL else b["pairs"],
+                       "sources": len(rows), "new": len(fresh)})
         replay_rows(chk, fresh, template_every)
         ph["replay_and_classify"] = round(ph.get("replay_and_classify", 0) + time.time() - t, 1)
     chk.cov["exhaustive_bounds"] = bounds
@@ -825,14 +915,16 @@ def run(tier: str) -> int:
     quick = tier == "quick"
     if quick:
         JOBS[0] = 4
-        core(chk, [(3, None)], ntraces=1200, nmin=4, nmax=12, workers=4, machine=2)
+        core(chk, [(3, BASE, 3, F3Q, ALL)], ntraces=1200, nmin=4, nmax=12, workers=4, machine=(2, None))
     else:
         JOBS[0] = 8
-        core(chk, [(3, None), (4, A14), (5, A8)], ntraces=10000, nmin=4, nmax=14, workers=8,
-             template_every=3, machine=3)
+        core(chk, [(3, BASE, 3, F3T, ALL), (4, A14, 4, F4T), (5, A8)], ntraces=10000, nmin=4, nmax=14, workers=8,
+             template_every=3, machine=(3, BASE, 3, F3T, ALL))
     chk.cov["exhaustive"] = True
-    chk.cov["rule"] = ("every source of <= N atoms (25 concrete segments of specs/LexerAtoms.tla; all 25 atoms to N=3; thorough also "
-                       "14 atoms to N=4 and 8 atoms to N=5, see exhaustive_bounds) "
+    chk.cov["rule"] = ("every source of <= N atoms (35 concrete segments of specs/LexerAtoms.tla: 25 base atoms + 10 near misses "
+                       "of the verbatim state machine; the 25 base atoms to N=3, the near misses + followers to N=3, all 35 "
+                       "to N=2; thorough also 14 base atoms and 7 incl. near misses to N=4 and 8 atoms to N=5, see "
+                       "exhaustive_bounds) "
                        "enumerated by TLC, theorems checked per source, each replayed on parse_template (+ patched "
                        "Template, debug on/off) under tag_re DOTALL and stock; seeded random sources of 4..14 grammar "
                        "segments validated by Trace_C09. Non-trivial = expected stream has more than one token; "
@@ -993,6 +1085,15 @@ def selftest(tier: str) -> int:
         ("end-position-excludes-closer",
          _src_probe(("(start_index, index + start_index)", "(start_index, index + start_index - 2)"))),
         ("stock-lexer-when-engine-not-debug", _stock_lexer_when_not_debug),
+        ("verbatim-handover-by-name-prefix",         # {% verbatim_js "q" %} switches to verbatim mode
+         _src_probe(('is_verbatim = fixed_token.contents[:9] in ("verbatim", "verbatim ")',
+                     'is_verbatim = fixed_token.contents.startswith("verbatim")'))),
+        ("verbatim-handover-by-first-word",          # {% verbatim\t"q" %} does (stock: only "verbatim" + space)
+         _src_probe(('is_verbatim = fixed_token.contents[:9] in ("verbatim", "verbatim ")',
+                     'is_verbatim = fixed_token.contents.split()[0] == "verbatim"'))),
+        ("verbatim-handover-end-tag-by-name",        # closes at any {% endverbatim ... %}: seeds only the tag name
+         _src_probe(('verbatim = "end%s" % fixed_token.contents if is_verbatim else None',
+                     'verbatim = "endverbatim" if is_verbatim else None'))),
     ]
     rc = run_probes(PID, probes, body)
     ok = True
